@@ -315,6 +315,36 @@ class LibraryProcess:
         s.max_len = params.get('max_len', 12)
         s.all_chunkings = params.get('all_chunkings', False)
         s.twin = params.get('twin', False)
+        s.fault = params.get('fault', False)      # C10: a transport error injected at every call position of the real trace
+
+    def body_fault(s, stream, picks):
+        """the real process on a library stream, whole or byte-wise, with a transport error at call index k: it must come back unchanged,
+        at once (no further transport call), and never Ok"""
+        ex, w = s.ex, s.w
+        from .abstract_process import FaultErr
+        L = len(stream)
+        sched = ex.decide([(0, True), (1, True)])
+        maxcalls = (L + 2 if sched else 3) + 2 * len(picks) + 1
+        k = ex.decide([(i, True) for i in range(0, maxcalls)])
+        E = FaultErr()
+        ad = ScriptAdapter(list(stream), chunks=[L] if sched == 0 else [], tail=1, fault=k, fault_err=E)
+        s.ad = ad
+        s.fault_k = k
+        dev = w.new_device('T1')
+        r = w.process(dev, s.N, ad)
+        fired = any(t[0] in ('r!', 'w!', 'f!') and t[-1] == 'fault' for t in ad.trace)
+        viol = None
+        if r.variant == 'Ok':
+            viol = 'process returned Ok'
+        elif fired:
+            last = ad.trace[-1]
+            if r.f[0] is not E:
+                viol = f'transport error injected at call {k} ({[t[0] for t in ad.trace][k] if k < len(ad.trace) else "?"}) came back as {r.f[0]!r}'
+            elif not (last[0] in ('r!', 'w!', 'f!') and last[-1] == 'fault'):
+                viol = f'transport called again ({last[0]}) after its error at call {k} ({[t[0] for t in ad.trace][k]})'
+        if s.twin and fired:
+            viol = 'twin'
+        return {'viol': viol, 'picks': picks, 'fired': fired, 'fault': k}
 
     def body(s):
         ex, w = s.ex, s.w
@@ -325,6 +355,8 @@ class LibraryProcess:
         s.stream = stream
         if len(stream) > s.max_len:
             return {'viol': None, 'skipped': True}
+        if s.fault:
+            return s.body_fault(stream, picks)
         dev = w.new_device('T1')
         if s.all_chunkings:
             ad = ScriptAdapter(list(stream), fork_chunks=True, max_empty=0)
@@ -386,14 +418,15 @@ class LibraryProcess:
         v = None
         if out[0] == 'ok':
             v = out[1]['viol']
-            rule = 'LIBRARY'
+            rule = 'LIBRARY' if not s.fault else 'LIBFAULT'
             rec['skipped'] = bool(out[1].get('skipped'))
+            rec['fired'] = bool(out[1].get('fired'))
         else:
             v = out[1]
             rule = out[0].upper()
         if v:
             rec['violations'] = [{'rule': rule, 'what': f'{v}; stream {s.stream!r} N={s.N} chunks={list(s.ad.chosen)}', 'input': s.stream.hex(), 'device': 'T1', 'n': s.N, 'entry': 'process',
-                                  'chunks': list(s.ad.chosen), 'expected_out': bytes(b''.join(LIBRARY[i][2] for i in out[1]['picks'])).hex() if out[0] == 'ok' else None,
+                                  'chunks': list(s.ad.chosen), 'fault': getattr(s, 'fault_k', None) if s.fault else None, 'expected_out': bytes(b''.join(LIBRARY[i][2] for i in out[1]['picks'])).hex() if out[0] == 'ok' else None,
                                   'expected_calls': [c for i in out[1]['picks'] for c in LIBRARY[i][1]] if out[0] == 'ok' else None, 'role': f'{rule}'}]
         if hash(tuple(map(str, s.ex.decisions))) % 199 == 0:
             rec['sample'] = {'stream': repr(s.stream), 'chunks': list(getattr(s, 'ad', None).chosen) if getattr(s, 'ad', None) else None}
@@ -403,6 +436,15 @@ class LibraryProcess:
 def confirm_library(run, v):
     detail = {}
     ok_all = False      # reproduced in the dev or the release profile (both recorded)
+    if v['rule'] == 'LIBFAULT':
+        for rel in (False, True):
+            o = run.native([{'entry': 'process', 'device': 'T1', 'input': v['input'], 'n': v['n'], 'chunks': v.get('chunks') or [], 'tail': 1, 'fault': [v['fault'], 77]}], release=rel)[0]
+            tr = o.get('trace', [])
+            fired = any(t.endswith('!77') for t in tr)
+            ok = o.get('result') == 'ok' or (fired and (o.get('result') != 'err:77' or not tr[-1].endswith('!77')))
+            detail['release' if rel else 'dev'] = {'observation': o, 'reproduced': ok}
+            ok_all = ok_all or ok
+        return ok_all, detail
     for rel in (False, True):
         o = run.native([{'entry': 'process', 'device': 'T1', 'input': v['input'], 'n': v['n'], 'chunks': v.get('chunks') or [], 'tail': 1}], release=rel)[0]
         if v['rule'] in ('PANIC', 'HANG'):
